@@ -111,6 +111,12 @@ func GenNested(t *rapid.T, opt NestedOptions) *Nested {
 		var actions []gtab.SeqLookup
 		for k := 0; k < nAct; k++ {
 			lo, hi, hiSeq := i+1, total-1, nIn
+			if rapid.IntRange(0, 3).Draw(t, "seqIdxGrown") == 0 {
+				// positions that exist only after an earlier action of the rule
+				// has inserted glyphs (an index beyond the sequence at the time
+				// the action runs does nothing)
+				hiSeq = nIn + 2
+			}
 			if opt.Wild {
 				lo, hi, hiSeq = 0, total, nIn+2 // self-referential / earlier lookups, out-of-range positions and lookups
 			}
